@@ -162,7 +162,7 @@ impl Method for SMM {
 		}
 
 		match length {
-			0 => Err(Error::WrongMethodParameters),
+			0 | PeriodType::MAX => Err(Error::WrongMethodParameters),
 			length => {
 				let half = length / 2;
 
